@@ -227,3 +227,225 @@ pub fn guts_new(key: &[u8], nonce: &[u8]) -> ChaCha {
     k.copy_from_slice(key);
     ChaCha::new(&k, nonce)
 }
+
+// ------------------------------------------------------------------------------------------------
+// histories: C02 / C11
+
+fn res_str<T>(r: &Result<Result<T, ()>, String>) -> String {
+    match r {
+        Ok(Ok(_)) => "ok".into(),
+        Ok(Err(())) => "err".into(),
+        Err(p) => format!("panic:{}", sanitize(p)),
+    }
+}
+
+pub struct Episode {
+    pub c: Box<dyn Ciph>,
+    pub k: usize,
+    pub with_internals: bool,
+}
+
+fn internals_json(c: &dyn Ciph) -> String {
+    let (have, len, fresh, p0, p1) = c.internals();
+    let lim = |v: u64| -> String { (0..4).map(|i| ((v >> (16 * i)) & 0xffff).to_string()).collect::<Vec<_>>().join(",") };
+    format!("{{\"have\":{},\"len\":[{}],\"fresh\":{},\"p0\":[{}],\"p1\":[{}]}}", have, lim(len), fresh, lim(p0), lim(p1))
+}
+
+impl Episode {
+    pub fn start(out: &mut dyn std::io::Write, variant: &str, key: &[u8], nonce: &[u8], tag: &str, with_internals: bool) -> Episode {
+        let c = make(variant, key, nonce);
+        let mut e = Ev::new(0, "new").s("variant", variant).s("tag", tag).bytes("key", key).bytes("nonce", nonce);
+        if with_internals {
+            e = e.raw("st", &internals_json(&*c));
+        }
+        e.emit(out);
+        Episode { c, k: 0, with_internals }
+    }
+    fn fin(&self, mut e: Ev, out: &mut dyn std::io::Write) {
+        if self.with_internals {
+            e = e.raw("st", &internals_json(&*self.c));
+        }
+        e.emit(out);
+    }
+    pub fn seek(&mut self, out: &mut dyn std::io::Write, ty: &str, neg: bool, mag: u128) {
+        self.k += 1;
+        let c = &mut self.c;
+        let r = guarded(|| c.seek(ty, neg, mag));
+        let e = Ev::new(self.k, "seek").s("ty", ty).b("neg", neg).limbs("val", mag, 8).s("res", &res_str(&r));
+        self.fin(e, out);
+    }
+    pub fn apply(&mut self, out: &mut dyn std::io::Write, data: &[u8]) {
+        self.k += 1;
+        let n = data.len();
+        let mut buf = vec![0x5au8; n + 2 * GUARD];
+        buf[GUARD..GUARD + n].copy_from_slice(data);
+        let c = &mut self.c;
+        let r = guarded(|| c.apply(&mut buf[GUARD..GUARD + n]));
+        let guard_ok = buf[..GUARD].iter().all(|&x| x == 0x5a) && buf[GUARD + n..].iter().all(|&x| x == 0x5a);
+        let e = Ev::new(self.k, "apply")
+            .i("n", n as i64)
+            .bytes("before", data)
+            .bytes("after", &buf[GUARD..GUARD + n])
+            .b("guard", guard_ok)
+            .s("res", &res_str(&r));
+        self.fin(e, out);
+    }
+    pub fn pos(&mut self, out: &mut dyn std::io::Write, ty: &str) {
+        self.k += 1;
+        let c = &self.c;
+        let r = guarded(|| c.pos(ty));
+        let (res, val) = match &r {
+            Ok(Some(v)) => ("ok".to_string(), *v),
+            Ok(None) => ("ovf".to_string(), 0),
+            Err(p) => (format!("panic:{}", sanitize(p)), 0),
+        };
+        let e = Ev::new(self.k, "pos").s("ty", ty).limbs("val", val, 8).s("res", &res);
+        self.fin(e, out);
+    }
+}
+
+pub fn type_max(ty: &str) -> u128 {
+    match ty {
+        "u8" => u8::MAX as u128,
+        "u16" => u16::MAX as u128,
+        "u32" => u32::MAX as u128,
+        "u64" | "usize" => u64::MAX as u128,
+        "u128" => u128::MAX,
+        "i32" => i32::MAX as u128,
+        _ => panic!("harness: type"),
+    }
+}
+
+fn pattern(rng: &mut Rng, n: usize) -> Vec<u8> {
+    match rng.below(4) {
+        0 => vec![0u8; n],
+        1 => vec![0xffu8; n],
+        _ => rng.bytes(n),
+    }
+}
+
+/// Script runner: line-based commands generated from TLC's state graph (spec -> impl).
+///   new <variant> <keyhex> <noncehex> <tag> | seek <ty> <neg 0/1> <mag decimal> | apply <n> | pos <ty>
+pub fn run_script(out: &mut dyn std::io::Write, path: &str, seed: u64, with_internals: bool) {
+    let text = std::fs::read_to_string(path).expect("script");
+    let mut rng = Rng::new(seed);
+    let mut ep: Option<Episode> = None;
+    for line in text.lines() {
+        let f: Vec<&str> = line.split_whitespace().collect();
+        if f.is_empty() || f[0].starts_with('#') {
+            continue;
+        }
+        match f[0] {
+            "new" => ep = Some(Episode::start(out, f[1], &unhex(f[2]), &unhex(f[3]), f[4], with_internals)),
+            "seek" => ep.as_mut().unwrap().seek(out, f[1], f[2] == "1", f[3].parse().unwrap()),
+            "apply" => {
+                let n: usize = f[1].parse().unwrap();
+                let d = pattern(&mut rng, n);
+                ep.as_mut().unwrap().apply(out, &d)
+            }
+            "pos" => ep.as_mut().unwrap().pos(out, f[1]),
+            _ => panic!("harness: script line {}", line),
+        }
+    }
+}
+
+/// Random histories concentrated at the landmarks (impl -> spec).
+pub fn drive_histories(out: &mut dyn std::io::Write, seed: u64, thorough: bool, with_internals: bool) {
+    let mut rng = Rng::new(seed ^ 0xc02);
+    let n_eps = if thorough { 600 } else { 70 };
+    let steps = if thorough { 30 } else { 14 };
+    let lens: [usize; 14] = [0, 1, 2, 31, 63, 64, 65, 127, 128, 129, 255, 256, 257, 400];
+    for epi in 0..n_eps {
+        let variant = VARIANTS[(epi % 7) as usize];
+        let key = rng.bytes(32);
+        let mut nonce = rng.bytes(nonce_len(variant));
+        if variant == "Ietf" && rng.below(2) == 0 {
+            for b in nonce[..4].iter_mut() {
+                *b = 0xff;
+            }
+        }
+        let total = total_bytes(variant);
+        let marks: Vec<u128> = if variant == "Ietf" {
+            vec![0, 1u128 << 38, 64 * 5]
+        } else {
+            vec![0, 1u128 << 38, (1u128 << 64) - 1, 1u128 << 63, 64 * 7]
+        };
+        let mut ep = Episode::start(out, variant, &key, &nonce, "rand", with_internals);
+        // start some episodes directly near a landmark
+        for _ in 0..steps {
+            match rng.below(10) {
+                0..=3 => {
+                    // seek near a landmark (or anywhere)
+                    let base = *rng.pick(&marks);
+                    let delta = *rng.pick(&[0i64, 1, 2, 63, 64, 65, 130, 255, 256, 257, 300, 1000]) as i128;
+                    let sign = if rng.below(2) == 0 { -1i128 } else { 1 };
+                    let mut p = base as i128 + sign * delta;
+                    if rng.below(12) == 0 {
+                        p = (rng.next() as u128 % (total.min(u64::MAX as u128) + 1)) as i128;
+                    }
+                    if p < 0 {
+                        p = -p;
+                    }
+                    let p = p as u128;
+                    // choose a type that can express p
+                    let fits: Vec<&str> = SEEK_TYPES.iter().cloned().filter(|t| p <= type_max(t)).collect();
+                    let ty = *rng.pick(&fits);
+                    ep.seek(out, ty, false, p);
+                }
+                4 => {
+                    // arguments the conversion must reject: negative i32, u128 beyond u64
+                    if rng.below(2) == 0 {
+                        ep.seek(out, "i32", true, 1 + rng.below(1000) as u128);
+                    } else {
+                        ep.seek(out, "u128", false, (u64::MAX as u128) + 1 + rng.below(5000) as u128);
+                    }
+                }
+                5 => {
+                    let ty = *rng.pick(&SEEK_TYPES);
+                    ep.pos(out, ty);
+                }
+                _ => {
+                    let n = *rng.pick(&lens);
+                    let d = pattern(&mut rng, n);
+                    ep.apply(out, &d);
+                    if rng.below(3) == 0 {
+                        ep.pos(out, "u128");
+                    }
+                }
+            }
+        }
+    }
+    // the repository's own test histories and their mirror images
+    let key = [50u8; 32];
+    let mut ep = Episode::start(out, "Ietf", &key, &[44u8; 12], "seek_consistency", with_internals);
+    ep.apply(out, &vec![0u8; 1000]);
+    for (p, n) in [(128u128, 172usize), (0, 10), (300, 233), (533, 467), (10, 118)] {
+        ep.seek(out, "u64", false, p);
+        ep.apply(out, &vec![0u8; n]);
+        ep.pos(out, "u64");
+    }
+    for v in ["ChaCha20", "XChaCha12"] {
+        // mirror image on 64-bit-counter variants: mid-block-0 seek, then apply
+        let mut ep = Episode::start(out, v, &key, &vec![7u8; nonce_len(v)], "mirror", with_internals);
+        for (p, n) in [(10u128, 118usize), (0, 10), (1, 1), (63, 2), (128, 172)] {
+            ep.seek(out, "u32", false, p);
+            ep.apply(out, &vec![0u8; n]);
+            ep.pos(out, "u64");
+        }
+    }
+    let mut ep = Episode::start(out, "Ietf", &[0xffu8; 32], &[0u8; 12], "read_last_bytes", with_internals);
+    ep.seek(out, "u64", false, 0x40_0000_0000 - 10);
+    ep.apply(out, &[0u8; 10]);
+    ep.apply(out, &[0u8; 1]);
+    ep.seek(out, "u64", false, 0x40_0000_0000 - 10);
+    ep.apply(out, &[0u8; 11]);
+    ep.apply(out, &[0u8; 10]);
+    ep.seek(out, "u64", false, 0);
+    ep.apply(out, &[0u8; 70]);
+    ep.seek(out, "u64", false, 0x40_0000_0000);
+    ep.apply(out, &[0u8; 1]);
+    ep.apply(out, &[0u8; 0]);
+    ep.seek(out, "u64", false, 0x40_0000_0001);
+    ep.seek(out, "u128", false, 0x40_0000_0040);
+    ep.pos(out, "u64");
+}
